@@ -779,10 +779,14 @@ theorem acceptsFields_id {w : Tok} (hw : w = "name".toList ∨ w = "author".toLi
   have := isText_split h
   rcases hw with rfl | rfl <;> simp [acceptsFields, this]
 
+/-- `ponder_string` of `best_move` -/
+def ponderText : Option UciMove → List Char
+  | none => []
+  | some p => " ponder ".toList ++ p.render
+
 theorem acceptsFields_best {M : Tok} (hM : isMove M = true ∨ M = "0000".toList) (ponder : Option UciMove)
     (hp : ∀ p, ponder = some p → MoveOk p) :
-    acceptsFields (splitOnChar ' ' ("bestmove".toList ++ ' ' ::
-      (M ++ (match ponder with | none => [] | some p => " ponder ".toList ++ p.render)))) = true := by
+    acceptsFields (splitOnChar ' ' ("bestmove".toList ++ ' ' :: (M ++ ponderText ponder))) = true := by
   have hM' : ' ' ∉ M := by
     rcases hM with h | rfl
     · exact (hi_of_isMove h).nosp
@@ -790,7 +794,7 @@ theorem acceptsFields_best {M : Tok} (hM : isMove M = true ∨ M = "0000".toList
   cases ponder with
   | none =>
     have e : "bestmove".toList ++ ' ' :: (M ++ []) = "bestmove".toList ++ sp [M] := by simp [sp]
-    simp only
+    show acceptsFields (splitOnChar ' ' ("bestmove".toList ++ ' ' :: (M ++ []))) = true
     rw [e, split_sp (by decide) _ (by simpa using hM')]
     rcases hM with h | rfl
     · simp [acceptsFields, h]
@@ -799,7 +803,7 @@ theorem acceptsFields_best {M : Tok} (hM : isMove M = true ∨ M = "0000".toList
     have hpm := isMove_render (hp p rfl)
     have e : "bestmove".toList ++ ' ' :: (M ++ (" ponder ".toList ++ p.render))
         = "bestmove".toList ++ sp [M, "ponder".toList, p.render] := by simp [sp]
-    simp only
+    show acceptsFields (splitOnChar ' ' ("bestmove".toList ++ ' ' :: (M ++ (" ponder ".toList ++ p.render)))) = true
     rw [e, split_sp (by decide) _ (by
       intro t ht
       simp only [List.mem_cons, List.not_mem_nil, or_false] at ht
@@ -924,7 +928,32 @@ theorem isText_cons_split (d : Tok) (rest : List Char) (h : d ≠ []) : isText (
 
 /-! ## 7. the theorems -/
 
-/-- side conditions under which a message value is printed as a UCI line -/
+/-- an optional free text without line break -/
+def TextOptOk : Option (List Char) → Prop
+  | none => True
+  | some s => ∀ c ∈ s, isLineBreak c = false
+
+instance (o : Option (List Char)) : Decidable (TextOptOk o) := by
+  cases o <;> unfold TextOptOk <;> infer_instance
+
+theorem wfInfo_iff (i : Info) : WFInfo i ↔
+    MovesOk i.pv ∧ MoveOptOk i.currmove ∧ MovesOk i.refutation ∧ CurrlineOk i.currline ∧ TextOptOk i.string := by
+  constructor
+  · intro h
+    refine ⟨h.pv, h.currmove, h.refutation, h.currline, ?_⟩
+    cases hs : i.string with
+    | none => trivial
+    | some s => exact h.string s hs
+  · rintro ⟨h1, h2, h3, h4, h5⟩
+    refine ⟨h1, h2, h3, h4, ?_⟩
+    intro s hs; rw [hs] at h5; exact h5
+
+instance (i : Info) : Decidable (WFInfo i) := decidable_of_iff _ (wfInfo_iff i).symm
+
+/-- side conditions under which a message value is printed as a UCI line: squares are squares, free text has no
+line break, `id` texts are not empty (the Rust `assert!`s it), **present move lists are not empty** (`WFInfo`), an
+option name is not empty and does not start with a space, a string/combo default is not empty and does not end in
+white space (`trim` would eat it) -/
 def WFMsg : TxMsg → Prop
   | .idName n => n ≠ [] ∧ ∀ c ∈ n, isLineBreak c = false
   | .idAuthor a => a ≠ [] ∧ ∀ c ∈ a, isLineBreak c = false
@@ -937,8 +966,358 @@ def WFMsg : TxMsg → Prop
   | .optionCheck n _ => NameOk n ∧ ∀ c ∈ n, isLineBreak c = false
   | .optionSpin n _ _ _ => NameOk n ∧ ∀ c ∈ n, isLineBreak c = false
   | .optionCombo n d vars =>
-    NameOk n ∧ d ≠ [] ∧ d.head? ≠ some ' ' ∧ EndOk (d ++ varsText vars) ∧ ∀ t ∈ n :: d :: vars, ∀ c ∈ t, isLineBreak c = false
+    NameOk n ∧ EndOk (d ++ varsText vars) ∧ ∀ t ∈ n :: d :: vars, ∀ c ∈ t, isLineBreak c = false
   | .optionButton n => NameOk n ∧ ∀ c ∈ n, isLineBreak c = false
-  | .optionString n d => NameOk n ∧ EndOk d ∧ d.head? ≠ some ' ' ∧ ∀ t ∈ [n, d], ∀ c ∈ t, isLineBreak c = false
+  | .optionString n d => NameOk n ∧ EndOk d ∧ ∀ t ∈ [n, d], ∀ c ∈ t, isLineBreak c = false
+
+instance (m : TxMsg) : Decidable (WFMsg m) := by
+  cases m <;> unfold WFMsg <;> infer_instance
+
+theorem wf_moves {m : TxMsg} (h : WFMsg m) : ∀ mv ∈ movesOf m, MoveOk mv := by
+  cases m with
+  | bestMove b p =>
+    intro mv hmv
+    obtain ⟨hb, hp⟩ := h
+    simp only [movesOf, List.mem_append, Option.mem_toList] at hmv
+    rcases hmv with e | e
+    · rw [e] at hb; exact hb
+    · rw [e] at hp; exact hp
+  | info i =>
+    intro mv hmv
+    have h : WFInfo i := h
+    simp only [movesOf, List.mem_append, Option.mem_toList] at hmv
+    rcases hmv with hmv | e | hmv | hmv
+    · cases hpv : i.pv with
+      | none => simp [hpv, optMoves] at hmv
+      | some ms => have := h.pv; rw [hpv] at this hmv; exact this.2 mv hmv
+    · have := h.currmove; rw [e] at this; exact this
+    · cases hpv : i.refutation with
+      | none => simp [hpv, optMoves] at hmv
+      | some ms => have := h.refutation; rw [hpv] at this hmv; exact this.2 mv hmv
+    · cases hpv : i.currline with
+      | none => simp [hpv, optMoves] at hmv
+      | some c => have := h.currline; rw [hpv] at this hmv; exact this.2 mv hmv
+  | _ => intro mv hmv; simp [movesOf] at hmv
+
+theorem wf_texts {m : TxMsg} (h : WFMsg m) : ∀ t ∈ textsOf m, ∀ c ∈ t, isLineBreak c = false := by
+  cases m with
+  | idName n => intro t ht; simp only [textsOf, List.mem_singleton] at ht; subst ht; exact h.2
+  | idAuthor n => intro t ht; simp only [textsOf, List.mem_singleton] at ht; subst ht; exact h.2
+  | info i =>
+    intro t ht
+    simp only [textsOf, Option.mem_toList] at ht
+    exact (show WFInfo i from h).string t ht
+  | optionCheck n _ => intro t ht; simp only [textsOf, List.mem_singleton] at ht; subst ht; exact h.2
+  | optionSpin n _ _ _ => intro t ht; simp only [textsOf, List.mem_singleton] at ht; subst ht; exact h.2
+  | optionButton n => intro t ht; simp only [textsOf, List.mem_singleton] at ht; subst ht; exact h.2
+  | optionCombo n d vars => exact h.2.2
+  | optionString n d => exact h.2.2
+  | _ => intro t ht; simp [textsOf] at ht
+
+theorem all_varsText {P : Char → Prop} (hP : Tame P) : ∀ (vars : List (List Char)), (∀ v ∈ vars, All P v) →
+    All P (varsText vars)
+  | [], _ => All.nil
+  | v :: vs, h => by
+    rw [varsText]
+    exact (Plain.all hP (by decide)).append ((h v (by simp)).append
+      (all_varsText hP vs (fun x hx => h x (by simp [hx]))))
+
+theorem all_optionText {P : Char → Prop} (hP : Tame P) {name type rem : List Char} (hn : All P name)
+    (ht : Plain type) (hr : All P rem) : All P (optionText name type rem) := by
+  intro c hc
+  have hL : All P ("option name ".toList ++ (name ++ (" type ".toList ++ (type ++ ' ' :: rem)))) :=
+    (Plain.all hP (by decide)).append (hn.append ((Plain.all hP (by decide)).append
+      ((ht.all hP).append (All.cons hP.space hr))))
+  exact hL c (mem_trim hc)
+
+/-- every character of a printed line is a space, `-`, a digit, a letter (`P` contains these), or comes from a free text -/
+theorem all_renderChars {P : Char → Prop} (hP : Tame P) (m : TxMsg) (hm : ∀ mv ∈ movesOf m, MoveOk mv)
+    (ht : ∀ t ∈ textsOf m, All P t) : All P (renderChars m) := by
+  cases m with
+  | idName n => exact (Plain.all hP (by decide)).append (ht n (by simp [textsOf]))
+  | idAuthor n => exact (Plain.all hP (by decide)).append (ht n (by simp [textsOf]))
+  | uciOk => exact Plain.all hP (by decide)
+  | readyOk => exact Plain.all hP (by decide)
+  | copyProtection p => exact Plain.all hP (by cases p <;> decide)
+  | registration p => exact Plain.all hP (by cases p <;> decide)
+  | info i => exact all_infoText hP i hm ht
+  | bestMove b p =>
+    refine (Plain.all hP (by decide)).append (All.append ?_ ?_)
+    · cases b with
+      | none => exact Plain.all hP (by decide)
+      | some m => exact all_render hP (hm m (by simp [movesOf]))
+    · cases p with
+      | none => exact All.nil
+      | some m => exact (Plain.all hP (by decide)).append (all_render hP (hm m (by simp [movesOf])))
+  | optionCheck n d =>
+    exact all_optionText hP (ht n (by simp [textsOf])) (by decide)
+      ((Plain.all hP (by decide)).append (Plain.all hP (by cases d <;> decide)))
+  | optionSpin n d lo hi =>
+    exact all_optionText hP (ht n (by simp [textsOf])) (by decide)
+      ((Plain.all hP (by decide)).append ((all_intText hP d).append ((Plain.all hP (by decide)).append
+        ((all_intText hP lo).append ((Plain.all hP (by decide)).append (all_intText hP hi))))))
+  | optionCombo n d vars =>
+    exact all_optionText hP (ht n (by simp [textsOf])) (by decide)
+      ((Plain.all hP (by decide)).append ((ht d (by simp [textsOf])).append
+        (all_varsText hP vars (fun v hv => ht v (by simp [textsOf, hv])))))
+  | optionButton n => exact all_optionText hP (ht n (by simp [textsOf])) (by decide) All.nil
+  | optionString n d =>
+    exact all_optionText hP (ht n (by simp [textsOf])) (by decide)
+      ((Plain.all hP (by decide)).append (ht d (by simp [textsOf])))
+
+theorem tame_noBreak : Tame (fun c => isLineBreak c = false) :=
+  ⟨by decide, fun c h => by
+    simp only [isLineBreak, Bool.or_eq_false_iff, decide_eq_false_iff_not]
+    constructor <;> (intro e; subst e; revert h; decide)⟩
+
+theorem tame_noLF : Tame (fun c => c ≠ '\n') :=
+  ⟨by decide, fun c h e => by subst e; revert h; decide⟩
+
+theorem hi_not_ws {t : List Char} (h : Hi t) : ∀ c ∈ t, Uci.isWhiteSpace c = false := by
+  intro c hc
+  have := h c hc
+  simp only [Uci.isWhiteSpace, Bool.or_eq_false_iff, Bool.and_eq_false_iff, beq_eq_false_iff_ne,
+    decide_eq_false_iff_not, ne_eq]
+  omega
+
+theorem endOk_hi {t : List Char} (hne : t ≠ []) (h : Hi t) : EndOk t :=
+  ⟨hne, fun c hc => hi_not_ws h c (List.mem_of_getLast? hc)⟩
+
+theorem endOk_append (a : List Char) {b : List Char} (h : EndOk b) : EndOk (a ++ b) :=
+  ⟨by simp [h.1], fun c hc => h.2 c (by rwa [getLast?_append_ne h.1] at hc)⟩
+
+theorem intText_ne (v : Int) : intText v ≠ [] := by
+  have := isInt_intText v
+  intro e; rw [e] at this; simp [isInt, isNat] at this
+
+theorem spin_ok {d lo hi : Tok} (hd : isInt d = true) (hlo : isInt lo = true) (hhi : isInt hi = true) :
+    optType ["spin".toList, "default".toList, d, "min".toList, lo, "max".toList, hi] = true := by
+  simp [optType, spinParams, hd, hlo, hhi]
+
+theorem text_ok {ty : Tok} (hty : ty = "combo".toList ∨ ty = "string".toList) (text : List Tok)
+    (h : isText text = true) : optType (ty :: "default".toList :: text) = true := by
+  rcases hty with rfl | rfl <;> simp [optType, h]
+
+theorem acceptsFields_render (m : TxMsg) (h : WFMsg m) : acceptsFields (splitOnChar ' ' (renderChars m)) = true := by
+  cases m with
+  | idName n => exact acceptsFields_id (w := "name".toList) (Or.inl rfl) h.1
+  | idAuthor n => exact acceptsFields_id (w := "author".toList) (Or.inr rfl) h.1
+  | uciOk => decide
+  | readyOk => decide
+  | copyProtection p => cases p <;> decide
+  | registration p => cases p <;> decide
+  | info i => exact acceptsFields_info i h
+  | bestMove b p =>
+    obtain ⟨hb, hp⟩ := h
+    have hp' : ∀ q, p = some q → MoveOk q := by intro q e; rw [e] at hp; exact hp
+    cases b with
+    | none =>
+      have := acceptsFields_best (M := "0000".toList) (Or.inr rfl) p hp'
+      cases p <;> exact this
+    | some m =>
+      have := acceptsFields_best (Or.inl (isMove_render hb)) p hp'
+      cases p <;> exact this
+  | optionCheck n d =>
+    have hend : EndOk ("default ".toList ++ boolText d) :=
+      endOk_append _ (endOk_hi (by cases d <;> decide) (by cases d <;> decide))
+    show acceptsFields (splitOnChar ' ' (Uci.trim (optionLine n _ _))) = true
+    rw [optionLine_trim hend]
+    exact optionLine_fields h.1 (by decide) (by cases d <;> decide)
+  | optionSpin n d lo hi =>
+    have hend : EndOk ("default ".toList ++ (intText d ++ (" min ".toList ++ (intText lo ++ (" max ".toList ++
+        intText hi))))) :=
+      endOk_append _ (endOk_append _ (endOk_append _ (endOk_append _ (endOk_append _
+        (endOk_hi (intText_ne hi) (hi_of_isInt (isInt_intText hi)))))))
+    show acceptsFields (splitOnChar ' ' (Uci.trim (optionLine n _ _))) = true
+    rw [optionLine_trim hend]
+    apply optionLine_fields h.1 (by decide)
+    have e : "default ".toList ++ (intText d ++ (" min ".toList ++ (intText lo ++ (" max ".toList ++ intText hi))))
+        = "default".toList ++ sp [intText d, "min".toList, intText lo, "max".toList, intText hi] := by
+      simp only [String.reduceToList, List.cons_append, List.nil_append, sp, List.append_nil]
+    rw [e, split_sp (by decide)]
+    · exact spin_ok (isInt_intText d) (isInt_intText lo) (isInt_intText hi)
+    · intro t ht
+      simp only [List.mem_cons, List.not_mem_nil, or_false] at ht
+      rcases ht with rfl | rfl | rfl | rfl | rfl
+      · exact (hi_of_isInt (isInt_intText d)).nosp
+      · decide
+      · exact (hi_of_isInt (isInt_intText lo)).nosp
+      · decide
+      · exact (hi_of_isInt (isInt_intText hi)).nosp
+  | optionCombo n d vars =>
+    obtain ⟨hn, hend, -⟩ := h
+    show acceptsFields (splitOnChar ' ' (Uci.trim (optionLine n _ _))) = true
+    rw [optionLine_trim (endOk_append _ hend)]
+    apply optionLine_fields hn (by decide)
+    have e : "default ".toList ++ (d ++ varsText vars) = "default".toList ++ ' ' :: (d ++ varsText vars) := by
+      simp only [String.reduceToList, List.cons_append, List.nil_append]
+    rw [e, split_append, split_nosep (t := "default".toList) (by decide)]
+    exact text_ok (Or.inl rfl) _ (isText_split hend.1)
+  | optionButton n =>
+    show acceptsFields (splitOnChar ' ' (optionText n "button".toList [])) = true
+    rw [optionButton_trim]
+    exact optionButton_fields h.1
+  | optionString n d =>
+    obtain ⟨hn, hend, -⟩ := h
+    show acceptsFields (splitOnChar ' ' (Uci.trim (optionLine n _ _))) = true
+    rw [optionLine_trim (endOk_append _ hend)]
+    apply optionLine_fields hn (by decide)
+    have e : "default ".toList ++ d = "default".toList ++ ' ' :: d := by
+      simp only [String.reduceToList, List.cons_append, List.nil_append]
+    rw [e, split_append, split_nosep (t := "default".toList) (by decide)]
+    exact text_ok (Or.inr rfl) _ (isText_split hend.1)
+
+theorem renderChars_accepts (m : TxMsg) (h : WFMsg m) : accepts (renderChars m) = true := by
+  unfold accepts
+  have h1 : (renderChars m).any isLineBreak = false := by
+    rw [List.any_eq_false]
+    intro c hc
+    have := all_renderChars tame_noBreak m (wf_moves h) (wf_texts h) c hc
+    simp [this]
+  rw [h1, acceptsFields_render m h]; rfl
+
+/-- **C16, output syntax.**  Every message value (all subsets of the 17 optional `info` fields, all integers, all move
+lists, all free texts) that satisfies the side conditions `WFMsg` is printed as a line of the engine-to-GUI grammar. -/
+theorem render_accepts (m : TxMsg) (h : WFMsg m) : accepts (render m).toList = true := by
+  rw [render, String.toList_ofList]; exact renderChars_accepts m h
+
+/-- **one call, one line**: if the free texts of the message contain no U+000A (and squares are squares), the printed
+line contains none — `println!` then writes exactly one line.  No non-emptiness condition is needed here. -/
+theorem render_single_line (m : TxMsg) (hm : ∀ mv ∈ movesOf m, MoveOk mv) (ht : ∀ t ∈ textsOf m, '\n' ∉ t) :
+    '\n' ∉ (render m).toList := by
+  rw [render, String.toList_ofList]
+  intro hc
+  exact all_renderChars tame_noLF m hm (fun t htt c hcc e => ht t htt (e ▸ hcc)) '\n' hc rfl
+
+#print axioms render_accepts
+#print axioms render_single_line
+
+/-! ## 8. the side condition on `pv` is necessary -/
+
+def Bad (rest : List Tok) : Prop := ∀ more, items more rest = false
+
+theorem bad_natField {key : Tok} (hk : key ∈ natKeys) (o : Option Nat) {rest : List Tok} (h : Bad rest) :
+    Bad (natField key o ++ rest) := by
+  cases o with
+  | none => exact h
+  | some n =>
+    intro more
+    simp only [natField, List.cons_append, List.nil_append]
+    rw [items_nat (natKeys_kind key hk).1 (natKeys_kind key hk).2, h false, Bool.and_false]
+
+theorem bad_empty_pv (X : List Tok) : Bad ("pv".toList :: [] :: X) := by
+  intro more
+  rw [items_moves (by decide) (by decide)]; rfl
+
+theorem seg_head (key : List Char) (o : Option (List Char)) :
+    appendMaybe key o = [] ∨ ∃ r, appendMaybe key o = ' ' :: r := by
+  cases o with
+  | none => exact Or.inl rfl
+  | some v => exact Or.inr ⟨_, rfl⟩
+
+theorem flatten_head : ∀ (segs : List (List Char)), (∀ s ∈ segs, s = [] ∨ ∃ r, s = ' ' :: r) →
+    segs.flatten = [] ∨ ∃ r, segs.flatten = ' ' :: r
+  | [], _ => Or.inl rfl
+  | s :: segs, h => by
+    rcases h s (by simp) with rfl | ⟨r, rfl⟩
+    · simpa using flatten_head segs (fun x hx => h x (by simp [hx]))
+    · exact Or.inr ⟨r ++ segs.flatten, by simp⟩
+
+/-- **the printer can produce a line that is not UCI**: an `Info` whose principal variation is the empty list is
+printed with nothing after `pv ` (a double space or a trailing space), which the grammar rejects — whatever the
+other 16 fields are -/
+theorem empty_pv_rejected (i : Info) (h : i.pv = some []) : accepts (render (.info i)).toList = false := by
+  rw [render, String.toList_ofList]
+  show accepts (infoText i) = false
+  unfold accepts
+  suffices hs : acceptsFields (splitOnChar ' ' (infoText i)) = false by rw [hs, Bool.and_false]
+  let pre : List Tok := natField "depth".toList i.depth ++ (natField "seldepth".toList i.seldepth ++
+    (natField "time".toList i.time ++ natField "nodes".toList i.nodes))
+  obtain ⟨tail, htail, e⟩ : ∃ tail, (tail = [] ∨ ∃ r, tail = ' ' :: r) ∧
+      infoText i = ("info".toList ++ sp pre) ++ ' ' :: ("pv".toList ++ ' ' :: tail) := by
+    refine ⟨(((infoSegments i).drop 5).flatten), ?_, ?_⟩
+    · apply flatten_head
+      intro s hs
+      simp only [infoSegments, List.drop_succ_cons, List.drop_zero, List.mem_cons, List.not_mem_nil, or_false] at hs
+      rcases hs with rfl | rfl | rfl | rfl | rfl | rfl | rfl | rfl | rfl | rfl | rfl | rfl <;> exact seg_head _ _
+    · have hpv : appendMaybe "pv".toList (i.pv.map movesText) = ' ' :: ("pv".toList ++ ' ' :: []) := by
+        rw [h]; rfl
+      simp only [infoText, infoSegments, List.flatten_cons, List.flatten_nil, List.drop_succ_cons, List.drop_zero,
+        seg_nat, hpv, pre, sp_append, List.append_assoc, List.append_nil, List.cons_append, List.nil_append]
+  have hpre : ∀ t ∈ pre, ' ' ∉ t := by
+    have : FieldOk pre := by
+      repeat' apply FieldOk.append
+      all_goals exact natField_ok (by decide) _
+    exact fun t ht => (this.hi t ht).nosp
+  obtain ⟨X, hX⟩ : ∃ X, splitOnChar ' ' tail = [] :: X := by
+    rcases htail with rfl | ⟨r, rfl⟩
+    · exact ⟨[], rfl⟩
+    · exact ⟨splitOnChar ' ' r, by simp [splitOnChar]⟩
+  rw [e, split_append, split_append, split_sp (by decide) _ hpre, split_nosep (t := "pv".toList) (by decide), hX]
+  have hinfo : ∀ rest, acceptsFields ("info".toList :: rest) = items false rest := by
+    intro rest; simp [acceptsFields]
+  rw [List.cons_append, hinfo]
+  have hb : Bad (pre ++ ("pv".toList :: [] :: X)) := by
+    simp only [pre, List.append_assoc]
+    exact bad_natField (by decide) _ (bad_natField (by decide) _ (bad_natField (by decide) _
+      (bad_natField (by decide) _ (bad_empty_pv X))))
+  exact hb false
+
+#print axioms empty_pv_rejected
+
+/-! ## 9. non-vacuity -/
+
+/-- the fully populated line of the (commented-out) Rust test `info_all` -/
+example : renderChars (.info infoAll) = "info depth 20 seldepth 10 time 21234 nodes 45000000 pv a1a2 a3a4 multipv 1 score cp 200 lowerbound currmove h8h7q currmovenumber 24 hashfull 80 nps 200000000 tbhits 213333 sbhits 2040 cpuload 99 refutation d1d2 c3c4 currline 1 h1h2 b3b4 string hi it's info".toList := by
+  decide +kernel
+example : WFMsg (.info infoAll) := by decide
+example : accepts (render (.info infoAll)).toList = true := render_accepts _ (by decide)
+example : '\n' ∉ (render (.info infoAll)).toList := render_single_line _ (by decide) (by decide)
+
+/-- what the engine sends: `id`, `uciok`, `readyok`, `registration`, iteration infos, periodic infos, `bestmove` -/
+example : WFMsg (.idName "Inkayaku".toList) ∧
+    WFMsg (.idAuthor "Marvin Kuhnke (see https://github.com/marvk/rust-chess)".toList) ∧
+    WFMsg .uciOk ∧ WFMsg .readyOk ∧ WFMsg (.registration .checking) ∧ WFMsg (.registration .ok) ∧
+    WFMsg (.info { depth := some 3, time := some 12, nodes := some 4711, pv := some [⟨52, 36, none⟩, ⟨12, 28, none⟩],
+                   score := some (.cp (-17)), hashfull := some 1, nps := some 392583 }) ∧
+    WFMsg (.info { time := some 7, nodes := some 1000, hashfull := some 0, nps := some 142857 }) ∧
+    WFMsg (.info { depth := some 0, time := some 0, nodes := some 1, hashfull := some 0, nps := some 0,
+                   string := some "tphitrate NaN nrate 1 qrate 0 avgqdepth NaN qstartedrate 0 qtphitrate NaN".toList }) ∧
+    WFMsg (.bestMove (some ⟨52, 36, none⟩) (some ⟨12, 28, none⟩)) ∧ WFMsg (.bestMove none none) ∧
+    WFMsg (.bestMove (some ⟨8, 0, some .queen⟩) none) := by decide
+
+/-- `option` lines (never sent by the engine) -/
+example : WFMsg (.optionButton "Clear Hash".toList) ∧ WFMsg (.optionCheck "Nullmove".toList true) ∧
+    WFMsg (.optionSpin "Selectivity".toList 2 0 4) ∧
+    WFMsg (.optionCombo "Style".toList "Normal".toList ["Solid".toList, "Normal".toList, "Risky".toList]) ∧
+    WFMsg (.optionString "NalimovPath".toList "c:\\".toList) := by decide
+
+/-- the side conditions are not decoration: each of these values is printed as a line the grammar rejects -/
+example : ¬ WFMsg (.info { depth := some 1, pv := some [], score := some (.cp 3) }) := by decide
+example : accepts (render (.info { depth := some 1, pv := some [], score := some (.cp 3) })).toList = false :=
+  empty_pv_rejected _ rfl
+#guard render (.info { depth := some 1, pv := some [], score := some (.cp 3) }) == "info depth 1 pv  score cp 3"
+#guard !accepts (render (.info { refutation := some [] })).toList               -- "info refutation "
+#guard !accepts (render (.info { currline := some ⟨1, []⟩ })).toList             -- "info currline 1 "
+#guard !accepts (render (.info { string := some "a\nquit".toList })).toList      -- two lines
+#guard !accepts (render (.idName [])).toList                                     -- "id name " (Rust: assert! panics)
+#guard !accepts (render (.bestMove (some ⟨64, 0, none⟩) none)).toList            -- not a square: "bestmove a0a8"
+#guard !accepts (render (.optionString "X".toList [])).toList                    -- "option name X type string default"
+#guard !accepts (render (.optionCheck " X".toList true)).toList                  -- two spaces after `name`
+#guard accepts (render (.info infoAll)).toList
+
+/- TARGET (not proved here; outside the three deliverables, recorded so that the gap is visible): the values the
+   engine hands to the printer satisfy `WFMsg`, i.e. the bridge from the search model to this file.
+
+     def ofOut : Search.Out → TxMsg      -- `.info d t n sc pv` ↦ `.info { depth := d, time := t, nodes := some n, score := …,
+                                         --    pv := pv.map (·.map uciOf), hashfull := some _, nps := some _ }`, `.bestMove b p` ↦ `.bestMove …`
+     theorem engine_out_wf (s : Search.St) (g) (maxIter) : ∀ o ∈ (Search.goCmd s g maxIter).out, o ∉ s.out → WFMsg (ofOut o)
+
+   Every conjunct of `WFMsg (ofOut o)` is immediate (squares of generated moves are < 64, the debug string is a
+   `format!` of numbers) except `pv ≠ some []`.  For the info emitted last before `bestmove` it follows from
+   `C16.bestmove_is_pv0_ponder_is_pv1` (`pvl[0]? = some m`).  For all infos: in `Search.deepen` the PV variable is `none`
+   until an iteration is not aborted, `aborted = stop || cur.mv.isNone`, and `cur.mv = some m` gives `cur.pv = m :: _`
+   (`SearchTrace.VM.pv_of_mv`); polling infos carry `none`.  That is an induction over `deepen` of the shape of
+   `SearchTrace.deepen_head` (or `SearchPv.goCmd_pv_ok` instantiated with `P b l := l ≠ []`). -/
 
 end Inkayaku.C16Console
